@@ -185,7 +185,7 @@ func (cx *Ctx) emitSummaryOf(fn *ssa.Function, stack map[*ssa.Function]bool) *em
 	// a "handled" / "go on" flag as the (last) result: `data, deliver := marshalOrReply(...)`
 	boolOnly := false
 	if res := fn.Signature.Results(); res.Len() >= 1 {
-		if b, ok := res.At(res.Len()-1).Type().Underlying().(*types.Basic); ok && b.Kind() == types.Bool {
+		if b, ok := res.At(res.Len() - 1).Type().Underlying().(*types.Basic); ok && b.Kind() == types.Bool {
 			boolOnly = true
 		}
 	}
